@@ -123,6 +123,10 @@ func (e *Eng) funcEnv(fr *Frame) *Env {
 			// cell_x: the memory cell of the address-taken variable x itself (x may also name a value read from it)
 			if len(as) == 1 {
 				fr.locals["cell_"+n] = as[0]
+				if fr.addrLocals == nil {
+					fr.addrLocals = map[string]ssa.Value{}
+				}
+				fr.addrLocals[n] = as[0]
 			}
 		}
 	}
@@ -132,6 +136,11 @@ func (e *Eng) funcEnv(fr *Frame) *Env {
 		}
 		if val, ok := fr.vals[v]; ok {
 			env.vars[n] = val
+		} else if a, ok := fr.addrLocals[n]; ok {
+			// the only value read from this address-taken variable is read later: here the name denotes its cell
+			if av, ok := fr.vals[a]; ok {
+				env.vars[n] = av
+			}
 		}
 	}
 	// variables assigned more than once: the definition that reaches the current block, i.e. the candidate
@@ -169,6 +178,11 @@ func (e *Eng) funcEnv(fr *Frame) *Env {
 			}
 			if best != nil {
 				env.vars[n] = fr.vals[best]
+			} else if a, ok := fr.addrLocals[n]; ok {
+				// no value read from the variable reaches this point yet: the name denotes the variable's cell
+				if v, ok := fr.vals[a]; ok {
+					env.vars[n] = v
+				}
 			}
 		}
 	}
